@@ -150,7 +150,7 @@ CORPUS = [
 ]
 
 
-def build_runs(ctx, n_tlc, n_big, configs, big_rows=14, tlc_rows=4, gens=None, corpus=1, extra_corpus=()):
+def build_runs(ctx, n_tlc, n_big, configs, big_rows=14, tlc_rows=4, gens=None, corpus=1, extra_corpus=(), corpus_tlc_db=True):
     """Returns (lines for the recorder, meta by run id, TLC generation result list).
     Sources of queries: TLC-generated plans (PlanGen, with the reference result) and the corpus; sources of
     data: the TLC-generated databases and larger random databases; each under every listed configuration."""
@@ -182,7 +182,7 @@ def build_runs(ctx, n_tlc, n_big, configs, big_rows=14, tlc_rows=4, gens=None, c
         add(f"{c['id']}/big{k % len(dbs)}/{cf}", c["sql"], db, cf, src="plangen-big")
     if corpus:
         for qi, sql in enumerate(CORPUS + list(extra_corpus)):
-            for di, db in enumerate(dbs[:corpus] + ([cases[0]["tables"]] if cases else [])):
+            for di, db in enumerate(dbs[:corpus] + ([cases[0]["tables"]] if cases and corpus_tlc_db else [])):
                 for cf in configs:
                     add(f"q{qi}/d{di}/{cf}", sql, db, cf, src="corpus")
     return lines, meta, tlcruns
